@@ -1,8 +1,8 @@
 CONSTANTS
   SplitBits = 2
   MaxNodes = 28
-  MaxT = 17
-  NExp = 2
+  MaxT = 12
+  NExp = 3
   MaxLevel = 100000
   CovPrint = FALSE
 CONSTANT Timers <- TimerSet
